@@ -1,4 +1,78 @@
-import SafeC.Models.Copy
-/-! Property theorems for C08 (see DESIGN.md §4). -/
+import SafeC.Proofs.CopyDisjoint
+/-!
+# C08 — after success nothing stale remains behind the terminator
+
+Default (null-slack) build: when strcpy_s / strncpy_s / strcat_s (and wcscpy_s) succeed on valid
+operands, every cell of dest from the terminator up to dmax is zero, whatever dest held before
+(no hypothesis on the prior contents of dest beyond strcat's own string).  Both strategies of the
+clearing code (memset above 0x20 cells, byte loop below) are covered by `nullSlack_ok`.
+No-slack build: the terminator is present (see C03/C06).
+-/
 namespace SafeC.Props.C08
+open SafeC Gen
+
+theorem strcpy_s_C08 (dest dmax src n : Nat) (st : St)
+    (hd : dest ≠ 0) (hs : src ≠ 0) (hpos : 0 < dmax) (hle : dmax ≤ RSIZE_MAX_STR)
+    (hrw : RW st dest dmax) (hsrc : SrcStr st src n) (hdisj : Disjoint dest dmax src n) :
+    ∃ code st', exec (strcpy_s { slack := true } dest dmax src none) st = .ok (code, st') ∧
+      (code = EOK → ∀ i, n ≤ i → i < dmax → st'.data (dest+i) = 0) := by
+  obtain ⟨code, st', he, _, _, _, _, _, hok, hfail⟩ :=
+    strcpyG_disjoint _ { slack := true } dest dmax src n st hd hs hpos hle hrw hsrc hdisj
+  refine ⟨code, st', he, fun hc => ?_⟩
+  by_cases h : n < dmax
+  · exact (hok h).2.2.2.2 rfl
+  · have := (hfail (by omega)).1
+    rw [hc] at this; exact absurd this (by decide)
+
+theorem wcscpy_eq (cfg : Cfg) (dest dmax src : Nat) :
+    wcscpy_s cfg dest dmax src none = strcpyG RSIZE_MAX_WSTR cfg dest dmax src none := by
+  unfold wcscpy_s strcpyG chkDmaxClearW chkDmaxClear chkDmaxClearG failS
+  rfl
+
+theorem wcscpy_s_C08 (dest dmax src n : Nat) (st : St)
+    (hd : dest ≠ 0) (hs : src ≠ 0) (hpos : 0 < dmax) (hle : dmax ≤ RSIZE_MAX_WSTR)
+    (hrw : RW st dest dmax) (hsrc : SrcStr st src n) (hdisj : Disjoint dest dmax src n) :
+    ∃ code st', exec (wcscpy_s { slack := true } dest dmax src none) st = .ok (code, st') ∧
+      (code = EOK → ∀ i, n ≤ i → i < dmax → st'.data (dest+i) = 0) := by
+  rw [wcscpy_eq]
+  obtain ⟨code, st', he, _, _, _, _, _, hok, hfail⟩ :=
+    strcpyG_disjoint _ { slack := true } dest dmax src n st hd hs hpos hle hrw hsrc hdisj
+  refine ⟨code, st', he, fun hc => ?_⟩
+  by_cases h : n < dmax
+  · exact (hok h).2.2.2.2 rfl
+  · have := (hfail (by omega)).1
+    rw [hc] at this; exact absurd this (by decide)
+
+theorem strncpy_s_C08 (dest dmax src slen m : Nat) (st : St)
+    (hd : dest ≠ 0) (hs : src ≠ 0) (hpos : 0 < dmax) (hle : dmax ≤ RSIZE_MAX_STR)
+    (hslen : 0 < slen) (hslenle : slen ≤ RSIZE_MAX_STR)
+    (hrw : RW st dest dmax)
+    (hnz : ∀ j, j < m → st.data (src+j) ≠ 0)
+    (hrd : ∀ j, j < m → st.mapped (src+j) = true ∧ st.rd (src+j) = true)
+    (hfin : (m < slen ∧ st.data (src+m) = 0 ∧ st.mapped (src+m) = true ∧ st.rd (src+m) = true) ∨ slen = m)
+    (hdisj : dest + dmax ≤ src ∨ src + m < dest) :
+    ∃ code st', exec (strncpy_s { slack := true } dest dmax src slen none none) st = .ok (code, st') ∧
+      (code = EOK → ∀ i, m ≤ i → i < dmax → st'.data (dest+i) = 0) := by
+  obtain ⟨code, st', he, _, _, _, _, _, hok, hfail⟩ :=
+    strncpyG_disjoint _ { slack := true } dest dmax src slen m st hd hs hpos hle (Nat.le_refl _) hslen hslenle hrw hnz hrd hfin hdisj
+  refine ⟨code, st', he, fun hc => ?_⟩
+  by_cases h : m < dmax
+  · exact (hok h).2.2.2.2 rfl
+  · have := (hfail (by omega)).1
+    rw [hc] at this; exact absurd this (by decide)
+
+theorem strcat_s_C08 (dest dmax src dl n : Nat) (st : St)
+    (hd : dest ≠ 0) (hs : src ≠ 0) (hpos : 0 < dmax) (hle : dmax ≤ RSIZE_MAX_STR)
+    (hrw : RW st dest dmax) (hsrc : SrcStr st src n) (hdisj : Disjoint dest dmax src n)
+    (hdl : dl < dmax) (hdnz : ∀ j, j < dl → st.data (dest+j) ≠ 0) (hdnul : st.data (dest+dl) = 0) :
+    ∃ code st', exec (strcat_s { slack := true } dest dmax src none) st = .ok (code, st') ∧
+      (code = EOK → ∀ i, dl + n ≤ i → i < dmax → st'.data (dest+i) = 0) := by
+  obtain ⟨code, st', he, _, _, _, _, _, hok, hfail⟩ :=
+    strcatG_disjoint _ { slack := true } dest dmax src dl n st hd hs hpos hle hrw hsrc hdisj hdl hdnz hdnul
+  refine ⟨code, st', he, fun hc => ?_⟩
+  by_cases h : dl + n < dmax
+  · exact (hok h).2.2.2.2.2 rfl
+  · have := (hfail (by omega)).1
+    rw [hc] at this; exact absurd this (by decide)
+
 end SafeC.Props.C08
